@@ -20,14 +20,20 @@ LEVEL_TEXT = ('Theorems in coq/theories/Properties/C13.v for all well-formed spe
               'operators, the four sampling modes, scalar and pair fill values and all 16 wave-unit pairs, for LINEAR '
               'interpolation: the result grid is linspace(min, max, ceil(range/dwave)+1) with dwave the finer/left/right/'
               'requested sampling and step <= dwave; every value is op(S1(l_i), S2(l_i)) with S the piecewise-linear '
-              'interpolant (shown unique) and the fill value outside; a+b = b+a and a*b = b*a; scalar/vector operands act '
-              'element-wise on the unchanged grid; re-expressing both operands in other wavelength units rescales the grid '
-              'and leaves the values unchanged (valueunit None). The model is extracted and compared with lentil on every run.')
+              'interpolant (stated separately, shown total and unique, and equal to the model\'s interp1d) and the fill value '
+              'outside; a+b = b+a and a*b = b*a (also across units); scalar/vector operands act element-wise on the unchanged '
+              'grid; re-expressing both operands in other wavelength units rescales the grid by the unit factor and leaves the '
+              'values unchanged (valueunit None), resp. divides them by it (density +- density, density */ unitless with fill 0). '
+              'The model is extracted and compared with lentil on every run.')
 LEVEL_NOTE = ('Quadratic/cubic interpolation are scipy splines: not modelled, compared against scipy directly (labelled test). '
               'Decimal unit factors (1e-3 ...) are exact rationals in the model; where one enters, floats are compared to '
-              '1e-12 relative and grid points within 1e-9 of an operand range end are not compared (the spec is discontinuous '
-              'there). Known finding: a two-element fill_value is refused by the arithmetic unless the grid has two points. '
-              'Operand immutability and "new object" are checked on the implementation only (trivial in a pure model).')
+              '1e-12 relative (scaled by the conditioning of the operator) and grid points within 1e-9 of an operand range end '
+              'are not compared (the specification is discontinuous there); numpy.power is a vectorised approximation and is '
+              'compared to 1e-13. Known findings: a two-element fill_value is refused unless the grid has two points '
+              '(C13-fill-pair); in floating point a unit conversion can add one sample when range/sampling is an integer '
+              '(C13-float-sample-count). Products/powers of two density-valued spectra are not unit-covariant and not claimed. '
+              'Operand immutability and "new object" are checked on the implementation only (trivial in a pure model); '
+              'reflected forms other than __rmul__ do not exist (TypeError), which the property does not pin.')
 TRUSTED = ['Coq 8.16.1 kernel (coqc; coqchk in the thorough tier)',
            'extraction with ExtrOcamlBasic only; ocaml/driver.ml',
            'harness/props/c13.py: case codec, float-exactness analysis, Fraction interpolation oracle',
@@ -44,7 +50,9 @@ RULE = ('corpus first; random pairs of spectra with identical / nested / overlap
         'forms, sample() with a foreign unit, constructor refusals; non-trivial = the operand grids differ; distinct by hash')
 
 # flip to True only if proposed_fixes/c13-fill-pair.patch has been applied to /repo: the model is then run with fx = true
-PAIR_FILL_FIXED = False
+PAIR_FILL_FIXED = True
+if __import__('os').environ.get('VERIF_C13_PAIR_FIXED') == '1':     # development-time override used with VERIF_REPO
+    PAIR_FILL_FIXED = True
 
 UNITS = ['m', 'um', 'nm', 'angstrom']
 VUNITS = [None, 'photlam', 'flam', 'wlam']
@@ -590,6 +598,21 @@ def pair_refused(c, r):
     return isinstance(c['fill'], list) and not PAIR_FILL_FIXED and r.get('err') == 'ValueError'
 
 
+def covariant_values(c):
+    """how the values of the result change when both operands are re-expressed in other wavelength units and the grid is
+    multiplied by f: 'same' (unitless operands), 'density' (divided by f: density +- density, or density */ unitless with
+    fill 0), None (not a unit-covariant combination, e.g. density * density: only the grid is compared)"""
+    va, vb = c['a']['vu'], c['b']['vu']
+    zero_fill = not isinstance(c['fill'], list) and F(c['fill']) == 0
+    if va is None and vb is None:
+        return 'same'
+    if va is not None and vb is not None and c['o'] in ('add', 'sub') and zero_fill:
+        return 'density'
+    if va is not None and vb is None and c['o'] in ('mul', 'div') and zero_fill:
+        return 'density'
+    return None
+
+
 def compare_rescaled(c, an, base, other, f, unit, what, exact):
     """`other` must be `base` with the grid multiplied by the exact unit factor f and the same values (valueunit None)"""
     if other['wu'] != unit:
@@ -602,15 +625,18 @@ def compare_rescaled(c, an, base, other, f, unit, what, exact):
     for i, (x, y) in enumerate(zip(base['wave'], other['wave'])):
         if abs(F(y) - F(x) * f) > F(TOL) * abs(F(x) * f):
             return f'{what}: grid point {i} is {y}, expected {float(F(x) * f)}'
-    if c['a']['vu'] is None and c['b']['vu'] is None:
+    cov = covariant_values(c)
+    if cov is not None:
+        vf = 1.0 if cov == 'same' else float(1 / f)
         for i, (x, y) in enumerate(zip(base['value'], other['value'])):
+            x = x * vf
             xq = F(base['wave'][i])
             _, y1, y2, _ = expected_at(c, an, xq)
             if ambiguous(c, an, xq, y1, y2) and not exact:
                 continue
             if math.isfinite(x) != math.isfinite(y):
                 return f'{what}: value[{i}] finiteness differs'
-            if math.isfinite(x) and abs(x - y) > TOL * max(abs(x), float(vtol(c, an, y1, y2))):
+            if math.isfinite(x) and abs(x - y) > TOL * max(abs(x), float(vtol(c, an, y1, y2)) * vf):
                 return f'{what}: value[{i}] = {y} differs from {x}'
     return None
 
@@ -803,7 +829,9 @@ def gen_spec(rng, tier):
          'sampling': smp, 'fill': fill, 'rel': rel}
     if smp == 'min' and not isinstance(fill, list) and F(fill) == 0 and rng.random() < 0.5:
         c['call'] = 'dunder'
-    if vua is None and vub is None and rng.random() < 0.6:
+    if vua is not None and rng.random() < 0.6 and ((vub is not None and o in ('add', 'sub')) or (vub is None and o in ('mul', 'div'))):
+        c['fill'] = '0'
+    if covariant_values(c) is not None and rng.random() < 0.6:
         c['alt'] = [rng.choice(UNITS), rng.choice(UNITS)]
     return c
 
@@ -911,6 +939,14 @@ def replay_known(f):
         c = {'op': 'spec', 'o': 'add', 'a': spec_dict([1, 2, 3, 4], [1, 2, 3, 5]), 'b': spec_dict([2, 3, 4, 5, 6], [1, 1, 2, 2, 4]),
              'sampling': 'min', 'fill': ['7', '9']}
         return is_pair_fill_refusal(c, run_impl(c))
+    if f['id'] == 'C13-float-sample-count':
+        lentil = C.import_lentil()
+        S = lentil.radiometry.Spectrum
+        a = S(np.arange(500., 601., 10.), np.ones(11), waveunit='nm')
+        b = S(np.arange(550., 651., 10.), np.ones(11), waveunit='nm')
+        b2 = b.copy()
+        b2.to('um')
+        return len((a * b).wave) != len((a * b2).wave)
     return False
 
 
